@@ -252,11 +252,25 @@ def run_rw(pe, acc, case):
                         exps = [exp, exp2]
                     else:
                         c = pe.Corr([o, None, 2 * o - 1])   # a correlator needs one configuration list for all slices
+                        before = [None if x is None else snap(x[0]) for x in c.content] + [snap(w)]
                         rc = c.reweight(w, all_configs=allc)
                         if rc.T != 3 or rc.content[1] is not None:
                             acc.fail(sig + ':corr-shape', sub, 'Corr.reweight changed T or the undefined slice')
                             continue
                         res = [rc.content[0][0], rc.content[2][0]]
+                        # the correlator that was reweighted is untouched and can be reweighted again with the same result
+                        if [None if x is None else snap(x[0]) for x in c.content] + [snap(w)] != before:
+                            acc.fail(sig + ':mutates-argument', sub, 'Corr.reweight modified the correlator it was called on (or the weight)')
+                            continue
+                        rc2 = c.reweight(w, all_configs=allc)
+                        if [snap(rc2.content[t][0]) for t in (0, 2)] != [snap(x) for x in res]:
+                            acc.fail(sig + ':second-call-differs', sub, 'a second Corr.reweight on the same correlator gives another result')
+                            continue
+                        arr = np.array([o, 2 * o - 1], dtype=object)
+                        ra = pe.reweight(w, arr, all_configs=allc)
+                        if not all(isinstance(x, pe.Obs) and not x.reweighted for x in arr) or [snap(x) for x in ra] != [snap(x) for x in res]:
+                            acc.fail(sig + ':ndarray-argument', sub, 'reweight of an ndarray of observables changed the array or differs from the Corr result')
+                            continue
                         exps = [exp, expected_reweight(wl, wsamp, ol, {n: 2 * osamp[n] - 1 for n in osamp}, allc)]
                 except Exception as e:
                     acc.fail(sig + ':raised', sub, 'aligned reweighting raised %s: %s' % (type(e).__name__, e))
